@@ -292,6 +292,14 @@ func vRewards(p string) {
 	case 2:
 		propAddr = sdk.Address(make([]byte, 20))
 	}
+	if prop == 1 && zz.Choice("proposer_just_force_unstaked", 2) == 1 {
+		// the proposer of the block was force-unstaked during it (its record remains, status Unstaked): still a known validator
+		if v, ok := e.Val(0); ok && v.Status != sdk.Unstaked {
+			if err := e.K.ForceValidatorUnstake(e.Ctx, v); err != nil {
+				panic(err)
+			}
+		}
+	}
 	e.K.SetPreviousProposer(e.Ctx, propAddr)
 	pre := e.snap()
 	e.Advance(time.Second, 1)
